@@ -23,9 +23,11 @@ Vs == IF Rich THEN {"v1", "v2", "v3"} ELSE {"v1", "v2"}
 \* spelled leaf paths
 LeafSp == IF Rich
           THEN {<<"p-q">>, <<"p_q">>, <<"r">>, <<"m", "x-y">>, <<"m", "x_y">>, <<"m", "z">>,
-                <<"m", "n", "w-v">>, <<"m", "n", "w_v">>}
+                <<"m", "n", "w-v">>, <<"m", "n", "w_v">>, <<"g-h", "z">>, <<"g_h", "r">>}
+          \* (g-h / g_h: a GROUP whose own name has the two spellings; its two entries are each reached through
+          \* the other spelling of the group)
           ELSE {<<"p-q">>, <<"p_q">>, <<"m", "x-y">>, <<"m", "x_y">>, <<"m", "z">>,
-                <<"m", "n", "w_v">>}
+                <<"m", "n", "w_v">>, <<"g-h", "z">>, <<"g_h", "r">>}
 
 \* whole-sub-map values (pairs relative to the assigned path)
 MapVals(v) == { <<[p |-> <<>>, v |-> "MAP"]>>,
